@@ -491,6 +491,7 @@ Proof.
   split; [auto|]. split; [auto|].
   unfold verify_and_fill in V.
   destruct (now <? 0) eqn:N; [discriminate|].
+  destruct (fx_stop_order fx && _) eqn:GS; [discriminate|].
   destruct (fx_snr fx && _) eqn:G0; [discriminate|].
   destruct (c_segTimelineNr c0 && c_segTimeline c0); [discriminate|].
   destruct (fx_subsdur fx && (c_subsDurMS c0 <=? 0)) eqn:G1; [discriminate|].
